@@ -48,6 +48,8 @@ def candidates(rng, n):
             ty = rng.choice(opts)[0]
             named = rng.random() < 0.4
             tv = variant(["Wrap", "Wrap2"][j], "named" if named else "tuple", [field(ty, rng.choice(SC.FIELD_NAMES) if named else "")], transp=True)
+            if rng.random() < 0.3:
+                tv["ser"] = [core.cp("tr%d" % j)]        # a spelling for EnumString next to `transparent`: printing still forwards the inner value
             vs.insert(rng.randint(0, len(vs)), tv)
         # a nested derived enum as inner value of a transparent variant is covered by the dictionary below
         E = enum(did, vs, aci=rng.random() < 0.3, style=rng.choice(["none", "none", "snake_case", "UPPERCASE"]), split=rng.randrange(2),
